@@ -220,7 +220,7 @@ pub fn generate(a: &Args) {
     let mut rng = Rng::new(a.seed ^ 0xC03);
     let th = is_thorough(a);
     // (1) results of the real generic decoders with the checker-supplied exact arithmetic
-    let n1 = if th { 12000 } else { 1500 };
+    let n1 = if th { 30000 } else { 1500 };
     for i in 0..n1 {
         let (rows, n) = match i % 4 {
             0 => random_forest(&mut rng, 6, 10),
@@ -260,7 +260,7 @@ pub fn generate(a: &Args) {
     // (1b) the twenty built-in 8-bit decoders, factory-built, on LLRs of the 1/8 grid (x8 = 8*llr is an integer, so the
     // quantiser involves no rounding): TLC predicts the full result from BP.tla composed with Arith.tla (BP8.tla)
     let names8: Vec<&str> = NAMES.iter().copied().filter(|n| n.contains("i8")).collect();
-    let n8 = if th { 400 } else { 40 };
+    let n8 = if th { 1200 } else { 40 };
     for name in names8.iter() {
         let hl = name.starts_with("HL");
         let arith = if hl { &name[2..] } else { name };
@@ -283,7 +283,7 @@ pub fn generate(a: &Args) {
         }
     }
     // (2) posterior clause: exact sum-product arithmetics on forests, at least graph-diameter iterations
-    let n2 = if th { 1500 } else { 120 };
+    let n2 = if th { 5000 } else { 120 };
     for i in 0..n2 {
         let (rows, n) = random_forest(&mut rng, if i % 3 == 0 { 8 } else { 4 }, 12);
         // distinct channel LLRs in +-6
